@@ -161,4 +161,833 @@ theorem countWhile_word_stop {n : Str} (c : Char) (rest : Str) (h : wfWord n = t
   countWhile_append_stop isWord n c rest (wfWord_spec h).2 hc
 
 
+/-! ### the identifier line -/
+
+/-- what follows the colon of an identifier line: nothing, or a space and an annotation field -/
+def IdentTail (tail : Str) : Prop := tail = [] ∨ ∃ m, tail = ' ' :: '(' :: (m ++ [')'])
+
+theorem section_word : ∀ x ∈ str "SECTION", isWord x = true := by decide +kernel
+
+theorem matchSection_symbol (name tail : Str) (hw : wfWord name = true)
+    (hs : startsWith name (str "SECTION") = false) : matchSection (name ++ ':' :: tail) = none := by
+  unfold matchSection
+  rw [countWs_word_append _ hw]
+  have : hasPrefix (name ++ ':' :: tail) (str "SECTION") = false := by
+    rw [hasPrefix_word_append name tail _ ':' word_facts.1 section_word, hasPrefix_eq_isPrefixOf]; exact hs
+  simp [this]
+
+theorem nameLen_nil : nameLen [] = none := by simp [nameLen]
+theorem nameLen_lpar (m : Str) : nameLen ('(' :: m) = none := by
+  simp [nameLen, isWordDash, word_facts.2.1]
+
+theorem matchClassMember_symbol (sep : Str) (member : String) (name tail : Str) (hw : wfWord name = true)
+    (ht : IdentTail tail) (hsep : sep = [':'] ∨ sep = [':', ':'] ∨ sep = ['.']) :
+    matchClassMember sep member (name ++ ':' :: tail) = none := by
+  unfold matchClassMember
+  have hne : name.length ≠ 0 := by
+    have := (wfWord_spec hw).1; intro h; exact this (List.length_eq_zero_iff.mp h)
+  rw [countWs_word_append _ hw]
+  simp only [List.drop_zero, Nat.zero_add, countWhile_word_stop ':' tail hw word_facts.1, hne, if_false,
+    drop_append_len, countWs_cons_nonspace tail colon_not_space, Nat.add_zero]
+  rcases hsep with rfl | rfl | rfl
+  · -- `:`: the member name is missing
+    simp only [hasPrefix, beq_self_eq_true, Bool.true_and, Bool.not_true, Bool.false_eq_true, if_false, List.length_singleton]
+    rcases ht with rfl | ⟨m, rfl⟩
+    · have : (name ++ [':']).drop (name.length + 1) = [] := List.drop_eq_nil_of_le (by simp)
+      simp [this, countWs_nil, nameLen_nil]
+    · have h1 : (name ++ ':' :: ' ' :: '(' :: (m ++ [')'])).drop (name.length + 1) = ' ' :: '(' :: (m ++ [')']) := by
+        rw [drop_len_add]; rfl
+      have h2 : (name ++ ':' :: ' ' :: '(' :: (m ++ [')'])).drop (name.length + 1 + 1) = '(' :: (m ++ [')']) := by
+        rw [Nat.add_assoc, drop_len_add]; rfl
+      have hc : countWs (' ' :: '(' :: (m ++ [')'])) = 1 := by
+        rw [countWs_space_cons _ space_isSpace]
+        simp [countWs_cons_nonspace _ lpar_not_space]
+      simp only [h1, hc, h2, nameLen_lpar]
+  · rcases ht with rfl | ⟨m, rfl⟩ <;> simp [hasPrefix]
+  · simp [hasPrefix]
+
+
+theorem matchAction_symbol (name tail : Str) (hw : wfWord name = true) : matchAction (name ++ ':' :: tail) = none := by
+  unfold matchAction
+  have hne : name.length ≠ 0 := by
+    have := (wfWord_spec hw).1; intro h; exact this (List.length_eq_zero_iff.mp h)
+  rw [countWs_word_append _ hw]
+  simp only [List.drop_zero, Nat.zero_add, countWhile_word_stop ':' tail hw word_facts.1, hne, if_false,
+    drop_append_len, countWs_cons_nonspace tail colon_not_space, Nat.add_zero]
+  split
+  · rename_i h; simp at h
+  · rfl
+
+/-- `tailOK` is false on anything that ends with a closing parenthesis -/
+theorem tailOK_close (x : Str) : tailOK (x ++ [')']) = false := by
+  unfold tailOK
+  have hk : countWs (x ++ [')']) ≤ x.length := by
+    unfold countWs
+    induction x with
+    | nil => simp [countWhile, rpar_not_space]
+    | cons c cs ih => simp only [List.cons_append, countWhile]; split <;> simp <;> omega
+  have hd : (x ++ [')']).drop (countWs (x ++ [')'])) = x.drop (countWs (x ++ [')'])) ++ [')'] := by
+    rw [List.drop_append_of_le_length hk]
+  rw [hd]
+  cases hx : x.drop (countWs (x ++ [')'])) with
+  | nil => simp
+  | cons c cs =>
+    simp only [List.cons_append]
+    split
+    · rename_i h; cases h
+    · rename_i r h
+      simp only [List.cons.injEq] at h
+      rw [← h.2]
+      simp [rpar_not_space]
+    · rfl
+
+theorem lazyFieldsLen_close : ∀ (x : Str), lazyFieldsLen (x ++ [')']) = x.length + 1
+  | [] => by simp [lazyFieldsLen, show tailOK [')'] = false from tailOK_close []]
+  | c :: cs => by
+    have := tailOK_close (c :: cs)
+    simp only [List.cons_append] at this ⊢
+    rw [lazyFieldsLen, this]
+    simp [lazyFieldsLen_close cs]
+
+
+theorem takeWhile_append_stop (p : Char → Bool) (pre : Str) (c : Char) (rest : Str)
+    (hpre : ∀ x ∈ pre, p x = true) (hc : p c = false) : (pre ++ c :: rest).takeWhile p = pre := by
+  induction pre with
+  | nil => simp [hc]
+  | cons x xs ih =>
+    simp only [List.cons_append, List.takeWhile, hpre x (by simp)]
+    rw [ih (fun y hy => hpre y (by simp [hy]))]
+
+theorem nameLen_word (name : Str) (c : Char) (rest : Str) (hw : wfWord name = true) (hc : isWordDash c = false) :
+    nameLen (name ++ c :: rest) = some name.length := by
+  obtain ⟨hne, hall⟩ := wfWord_spec hw
+  unfold nameLen
+  rw [takeWhile_append_stop isWordDash name c rest (fun x hx => by simp [isWordDash, hall x hx]) hc]
+  have hrev : name.reverse.dropWhile (fun c => !isWord c) = name.reverse := by
+    have hl := List.dropLast_concat_getLast hne
+    rw [← hl]
+    simp [hall _ (List.getLast_mem hne)]
+  simp [hrev, hne]
+
+theorem colon_not_wordDash : isWordDash ':' = false := by decide +kernel
+
+theorem matchSymbol_bare (name : Str) (hw : wfWord name = true) :
+    matchSymbol (name ++ [':']) = some [("symbol_name", 0, name.length), ("delimiter", name.length, name.length + 1),
+      ("fields", name.length + 1, name.length + 1)] := by
+  unfold matchSymbol
+  rw [countWs_word_append _ hw]
+  simp only [List.drop_zero, nameLen_word name ':' [] hw colon_not_wordDash, Nat.zero_add]
+  unfold identTail
+  have h1 : (name ++ [':']).drop (name.length + 1) = [] := List.drop_eq_nil_of_le (by simp)
+  simp [drop_append_len, countWs_cons_nonspace [] colon_not_space, h1, countWs_nil, lazyFieldsLen]
+
+theorem matchSymbol_fields (name m : Str) (hw : wfWord name = true) :
+    matchSymbol (name ++ ':' :: ' ' :: '(' :: (m ++ [')'])) =
+      some [("symbol_name", 0, name.length), ("delimiter", name.length, name.length + 1),
+        ("fields", name.length + 2, name.length + 2 + (m.length + 2))] := by
+  unfold matchSymbol
+  rw [countWs_word_append _ hw]
+  simp only [List.drop_zero, nameLen_word name ':' _ hw colon_not_wordDash, Nat.zero_add]
+  unfold identTail
+  have h1 : (name ++ ':' :: ' ' :: '(' :: (m ++ [')'])).drop (name.length + 1) = ' ' :: '(' :: (m ++ [')']) := by
+    rw [drop_len_add]; rfl
+  have h2 : (name ++ ':' :: ' ' :: '(' :: (m ++ [')'])).drop (name.length + 1 + 1) = '(' :: (m ++ [')']) := by
+    rw [Nat.add_assoc, drop_len_add]; rfl
+  have hc : countWs (' ' :: '(' :: (m ++ [')'])) = 1 := by
+    rw [countWs_space_cons _ space_isSpace]
+    simp [countWs_cons_nonspace _ lpar_not_space]
+  have hl : lazyFieldsLen ('(' :: (m ++ [')'])) = m.length + 2 := by
+    rw [← List.cons_append, lazyFieldsLen_close]; simp
+  simp only [drop_append_len, countWs_cons_nonspace _ colon_not_space, Nat.add_zero, h1, hc, h2, hl]
+
+
+theorem serializeAnnotations_shape : ∀ (a : Anns), a ≠ [] → ∃ m, serializeAnnotations a = '(' :: (m ++ [')'])
+  | [], h => absurd rfl h
+  | [x], _ => ⟨innerOf x, by rw [serializeAnnotations_singleton, serializeAnnotation_inner]; simp⟩
+  | x :: y :: t, _ => by
+    obtain ⟨m, hm⟩ := serializeAnnotations_shape (y :: t) (by simp)
+    refine ⟨innerOf x ++ ')' :: ' ' :: '(' :: m, ?_⟩
+    rw [serializeAnnotations_cons_cons, hm, serializeAnnotation_inner]; simp
+
+def NotSectionAction (name : Str) : Prop :=
+  startsWith name (str "SECTION") = false ∧ startsWith name (str "ACTION") = false
+
+theorem matchIdentifier_bare (name : Str) (hw : wfWord name = true) (hs : NotSectionAction name) :
+    matchIdentifier (name ++ [':']) = some (IdentM.mk name (some [':']) (some []) (name.length + 1) name.length) := by
+  unfold matchIdentifier
+  rw [matchSection_symbol name [] hw hs.1]
+  simp only [matchProperty, matchSignal, matchField]
+  rw [matchClassMember_symbol _ _ name [] hw (Or.inl rfl) (Or.inl rfl),
+    matchClassMember_symbol _ _ name [] hw (Or.inl rfl) (Or.inr (Or.inl rfl)), matchAction_symbol name [] hw,
+    matchClassMember_symbol _ _ name [] hw (Or.inl rfl) (Or.inr (Or.inr rfl)), matchSymbol_bare name hw]
+  simp [identOf, groupText, groupStart, take_len_append, drop_append_len]
+
+theorem matchIdentifier_fields (name m : Str) (hw : wfWord name = true) (hs : NotSectionAction name) :
+    matchIdentifier (name ++ ':' :: ' ' :: '(' :: (m ++ [')'])) =
+      some (IdentM.mk name (some [':']) (some ('(' :: (m ++ [')']))) (name.length + 2) name.length) := by
+  have ht : IdentTail (' ' :: '(' :: (m ++ [')'])) := Or.inr ⟨m, rfl⟩
+  unfold matchIdentifier
+  rw [matchSection_symbol name _ hw hs.1]
+  simp only [matchProperty, matchSignal, matchField]
+  rw [matchClassMember_symbol _ _ name _ hw ht (Or.inl rfl),
+    matchClassMember_symbol _ _ name _ hw ht (Or.inr (Or.inl rfl)), matchAction_symbol name _ hw,
+    matchClassMember_symbol _ _ name _ hw ht (Or.inr (Or.inr rfl)), matchSymbol_fields name m hw]
+  have h2 : (name ++ ':' :: ' ' :: '(' :: (m ++ [')'])).drop (name.length + 2) = '(' :: (m ++ [')']) := by
+    rw [drop_len_add]; rfl
+  have h3 : ('(' :: (m ++ [')'])).take (m.length + 2) = '(' :: (m ++ [')']) := List.take_of_length_le (by simp)
+  simp [identOf, groupText, groupStart, take_len_append, drop_append_len, h2, h3]
+
+
+@[simp] theorem BSt.log_nil (st : BSt) : st.log [] = st := by simp [BSt.log]
+
+theorem tdiagsAt_nil (ln : Nat) (q : Str) : tdiagsAt ln q [] = [] := rfl
+
+/-- the block right after its identifier line -/
+def identBlock (h : Hdr) (name : Str) (a : Anns) (ln : Nat) : BlockM :=
+  { newBlock h name with annotations := a, annsLine := if a.isEmpty then none else some ln }
+
+/-- the identifier line the writer emits -/
+def identLine (name : Str) (a : Anns) : Str :=
+  if a.isEmpty then name ++ [':'] else name ++ ':' :: ' ' :: serializeAnnotations a
+
+theorem identStep_symbol (h : Hdr) (st : BSt) (ln col : Nat) (orig : Str) (indent : Nat) (name : Str) (a : Anns)
+    (hw : wfWord name = true) (hs : NotSectionAction name) (ha : wfAnns a = true) :
+    identStep h st ln col orig (identLine name a) indent =
+      .ok { st with inPart := some .ident, partIndent := some indent, block := some (identBlock h name a ln) } := by
+  unfold identStep identLine identBlock
+  cases a with
+  | nil =>
+    simp only [List.isEmpty_nil, if_true, matchIdentifier_bare name hw hs, truthy, List.isEmpty_nil, Bool.not_true,
+      Bool.false_eq_true, if_false]
+    simp [newBlock]
+  | cons x xs =>
+    obtain ⟨m, hm⟩ := serializeAnnotations_shape (x :: xs) (by simp)
+    obtain ⟨sp, hp⟩ := parseAnnotations_serialize (col + (name.length + 2)) (x :: xs) none [] ha (fun _ _ => rfl) (Or.inl rfl)
+    simp only [List.append_nil, Option.getD_none, List.nil_append] at hp
+    simp only [List.isEmpty_cons, Bool.false_eq_true, if_false, hm, matchIdentifier_fields name m hw hs, truthy,
+      Bool.not_false, if_true, Option.getD_some]
+    rw [← hm, hp]
+    simp [strip, lstrip, rstrip, tdiagsAt_nil, truthy]
+
+
+/-! ### parameter lines -/
+
+/-- what follows the colon of a parameter / tag line: nothing, or a space and trimmed text -/
+def FieldTail (tail F : Str) : Prop := (tail = [] ∧ F = []) ∨ (tail = ' ' :: F ∧ Trimmed F)
+
+theorem at_facts : isSpace '@' = false := by decide
+
+theorem matchParameter_line (name tail F : Str) (hw : wfWord name = true) (ht : FieldTail tail F) :
+    ∃ g, matchParameter ('@' :: name ++ ':' :: tail) = some g ∧
+      groupText ('@' :: name ++ ':' :: tail) g "parameter_name" = name ∧
+      groupText ('@' :: name ++ ':' :: tail) g "fields" = F := by
+  obtain ⟨hne, hall⟩ := wfWord_spec hw
+  have hlen : name.length ≠ 0 := fun h => hne (List.length_eq_zero_iff.mp h)
+  unfold matchParameter
+  rw [show '@' :: name ++ ':' :: tail = '@' :: (name ++ ':' :: tail) by rfl, countWs_cons_nonspace _ at_facts]
+  simp only [List.drop_zero, Nat.zero_add]
+  have hrun : countWhile isWordDash (name ++ ':' :: tail) = name.length :=
+    countWhile_append_stop isWordDash name ':' tail (fun x hx => by simp [isWordDash, hall x hx]) colon_not_wordDash
+  have hlast : ((name ++ ':' :: tail).take name.length).getLast? = some (name.getLast hne) := by
+    rw [take_len_append]; exact List.getLast?_eq_some_getLast hne
+  have hcolon : colonAfterWs ((name ++ ':' :: tail).drop name.length) = some 1 := by
+    rw [drop_append_len]; simp [colonAfterWs, countWs_cons_nonspace _ colon_not_space]
+  simp only [hrun, hlen, if_false, hlast, hall _ (List.getLast_mem hne), if_true, hcolon, Option.map_some]
+  have hd : ('@' :: (name ++ ':' :: tail)).drop (1 + (name.length + 1)) = tail := by
+    rw [show 1 + (name.length + 1) = (name.length + 1) + 1 by omega, List.drop_succ_cons,
+      show name ++ ':' :: tail = (name ++ [':']) ++ tail by simp, show name.length + 1 = (name ++ [':']).length by simp,
+      drop_append_len]
+  rw [hd]
+  rcases ht with ⟨rfl, rfl⟩ | ⟨rfl, hF⟩
+  · rw [trimmedSpan_nil]
+    refine ⟨_, rfl, ?_, ?_⟩
+    · simp [groupText, take_len_append]
+    · simp [groupText]
+  · rw [trimmedSpan_space_trimmed _ space_isSpace hF]
+    refine ⟨_, rfl, ?_, ?_⟩
+    · simp [groupText, take_len_append]
+    · have hd2 : ('@' :: (name ++ ':' :: ' ' :: F)).drop (1 + (name.length + 1) + 1) = F := by
+        rw [show 1 + (name.length + 1) + 1 = (name.length + 2) + 1 by omega, List.drop_succ_cons,
+          show name ++ ':' :: ' ' :: F = (name ++ [':', ' ']) ++ F by simp,
+          show name.length + 2 = (name ++ [':', ' ']).length by simp, drop_append_len]
+      simp [groupText, hd2]
+
+
+/-! ### the fields of a part line -/
+
+theorem trimmedText_spec {s : Str} (h : trimmedText s = true) : Trimmed s ∧ NoBreak s := by
+  cases s with
+  | nil => simp [trimmedText] at h
+  | cons c cs =>
+    simp only [trimmedText, Bool.and_eq_true, Bool.not_eq_true', List.all_eq_true] at h
+    obtain ⟨⟨h1, h2⟩, h3⟩ := h
+    refine ⟨⟨⟨c, cs, rfl, h1⟩, ?_⟩, ?_⟩
+    · have hne : c :: cs ≠ [] := by simp
+      refine ⟨(c :: cs).dropLast, (c :: cs).getLast hne, (List.dropLast_concat_getLast hne).symm, ?_⟩
+      rw [List.getLast?_eq_some_getLast hne] at h2
+      simpa using h2
+    · intro x hx
+      have := h3 x hx
+      simp only [noBreakChar, Bool.and_eq_true, bne_iff_ne, ne_eq] at this
+      exact ⟨this.2, this.1⟩
+
+theorem wfDescText_spec {s : Str} (h : wfDescText s = true) :
+    Trimmed s ∧ NoBreak s ∧ ∃ c cs, s = c :: cs ∧ isSpace c = false ∧ c ≠ '(' ∧ c ≠ ')' ∧ c ≠ ':' := by
+  simp only [wfDescText, Bool.and_eq_true, bne_iff_ne, ne_eq] at h
+  obtain ⟨⟨⟨h1, h2⟩, h3⟩, h4⟩ := h
+  obtain ⟨ht, hb⟩ := trimmedText_spec h1
+  refine ⟨ht, hb, ?_⟩
+  obtain ⟨c, cs, he, hc⟩ := ht.head
+  subst he
+  exact ⟨c, cs, rfl, hc, by simpa using h2, by simpa using h3, by simpa using h4⟩
+
+/-- the text after `@name:` / `Returns:` on the writer's line for a part -/
+def partFields (p : SPart) : Str :=
+  match p.desc with
+  | some d => if p.anns.isEmpty then d else serializeAnnotations p.anns ++ ':' :: ' ' :: d
+  | none => if p.anns.isEmpty then [] else serializeAnnotations p.anns ++ [':']
+
+/-- the description `_parse_fields` returns for that text (before the final clean-up) -/
+def rawDesc (p : SPart) : Str :=
+  match p.desc with
+  | some d => if p.anns.isEmpty then d else ' ' :: d
+  | none => []
+
+theorem firstFields_part (col : Nat) (p : SPart) (h : wfPartBody p = true) :
+    firstFields col (partFields p) = .ok (if (partFields p).isEmpty then none else
+      some { success := true, anns := p.anns, raw := [], changed := !p.anns.isEmpty, description := rawDesc p, diags := [] }) := by
+  simp only [wfPartBody, Bool.and_eq_true] at h
+  obtain ⟨ha, hd⟩ := h
+  unfold firstFields
+  split
+  · rfl
+  · rename_i hne
+    unfold parseFields partFields rawDesc
+    cases hdesc : p.desc with
+    | none =>
+      simp only [partFields, hdesc] at hne ⊢
+      cases hae : p.anns.isEmpty with
+      | true => simp [hae] at hne
+      | false =>
+        simp only [Bool.false_eq_true, if_false]
+        obtain ⟨sp, hp⟩ := parseAnnotations_serialize col p.anns none [':'] ha (fun _ _ => rfl)
+          (Or.inr ⟨':', [], rfl, colon_not_space, by decide, by decide⟩)
+        simp only [Option.getD_none, List.nil_append, hae, Bool.not_false] at hp
+        rw [hp]
+        simp [drop_append_len, strip, lstrip, rstrip, colon_not_space]
+    | some d =>
+      rw [hdesc] at hd
+      simp only [] at hd
+      obtain ⟨htr, _, c, cs, hcs, hc1, hc2, hc3, hc4⟩ := wfDescText_spec hd
+      simp only [partFields, hdesc] at hne ⊢
+      cases hae : p.anns.isEmpty with
+      | true =>
+        simp only [if_true]
+        have hnil : p.anns = [] := List.isEmpty_iff.mp hae
+        obtain ⟨sp, hp⟩ := parseAnnotations_serialize col [] none d (by decide) (fun _ _ => rfl)
+          (Or.inr ⟨c, cs, hcs, hc1, hc2, hc3⟩)
+        simp only [Option.getD_none, List.nil_append, List.isEmpty_nil, Bool.not_true,
+          show serializeAnnotations [] = [] from rfl, List.length_nil] at hp
+        rw [hp]
+        simp only [List.drop_zero, strip_trimmed htr]
+        subst hcs
+        simp [hc4, hnil]
+      | false =>
+        simp only [Bool.false_eq_true, if_false]
+        obtain ⟨sp, hp⟩ := parseAnnotations_serialize col p.anns none (':' :: ' ' :: d) ha (fun _ _ => rfl)
+          (Or.inr ⟨':', ' ' :: d, rfl, colon_not_space, by decide, by decide⟩)
+        simp only [Option.getD_none, List.nil_append, hae, Bool.not_false] at hp
+        rw [hp]
+        have hst : strip (':' :: ' ' :: d) = ':' :: ' ' :: d := by
+          obtain ⟨ds, x, hx, hxs⟩ := htr.last
+          unfold strip
+          rw [lstrip_cons_of_not_space colon_not_space, hx,
+            show ':' :: ' ' :: (ds ++ [x]) = (':' :: ' ' :: ds) ++ [x] by simp]
+          exact rstrip_append_of_not_space hxs
+        simp [drop_append_len, hst]
+
+
+theorem partFields_isEmpty (p : SPart) (h : wfPartBody p = true) :
+    (partFields p).isEmpty = (p.anns.isEmpty && p.desc.isNone) := by
+  simp only [wfPartBody, Bool.and_eq_true] at h
+  unfold partFields
+  cases hd : p.desc with
+  | none =>
+    cases ha : p.anns.isEmpty with
+    | true => simp
+    | false => simp
+  | some d =>
+    rw [hd] at h
+    have hne := (wfDescText_spec h.2).1.ne_nil
+    cases ha : p.anns.isEmpty with
+    | true => simp [hne]
+    | false => simp
+
+/-- a part right after its first line -/
+def partRaw (name : Str) (p : SPart) (ln : Nat) : PartM :=
+  { name := name, line := ln, annotations := p.anns,
+    annsLine := if p.anns.isEmpty && p.desc.isNone then none else some ln, value := none,
+    description := if p.anns.isEmpty && p.desc.isNone then none else some (rawDesc p) }
+
+theorem applyFirstFields_part (name : Str) (p : SPart) (ln col : Nat) (h : wfPartBody p = true) :
+    ∃ r, firstFields col (partFields p) = .ok r ∧ applyFirstFields (newPart name ln) ln r = partRaw name p ln ∧
+      fieldsDiags ln [] r = [] ∧ (∀ q, fieldsDiags ln q r = []) := by
+  refine ⟨_, firstFields_part col p h, ?_, ?_, ?_⟩
+  · rw [partFields_isEmpty p h]
+    unfold partRaw applyFirstFields newPart
+    cases hc : (p.anns.isEmpty && p.desc.isNone) with
+    | true =>
+      simp only [if_true]
+      have : p.anns = [] := by
+        simp only [Bool.and_eq_true] at hc; exact List.isEmpty_iff.mp hc.1
+      simp [this]
+    | false => simp
+  · split <;> rfl
+  · intro q; split <;> rfl
+
+theorem endsWith_dots_word (name : Str) (hw : wfWord name = true) : endsWith name (str "...") = false := by
+  obtain ⟨hne, hall⟩ := wfWord_spec hw
+  have hl := List.dropLast_concat_getLast hne
+  have hlw := hall _ (List.getLast_mem hne)
+  unfold endsWith
+  rw [← hl]
+  have : (name.getLast hne == '.') = false := by
+    simp only [beq_eq_false_iff_ne, ne_eq]; intro he; rw [he, word_facts.2.2.2.2.2.1] at hlw; cases hlw
+  have hne' : '.' ≠ name.getLast hne := by
+    intro he; rw [← he, word_facts.2.2.2.2.2.1] at hlw; cases hlw
+  simp [str, List.isPrefixOf, hne']
+
+theorem lineIndent_nonspace {c : Char} (cs : Str) (h : isSpace c = false) : lineIndent (c :: cs) = 0 := by
+  simp [lineIndent, countWs_cons_nonspace cs h]
+
+theorem lineIndent_nil : lineIndent [] = 0 := rfl
+
+theorem wfParam_spec {p : SPart} (h : wfParam p = true) :
+    wfWord p.name = true ∧ pyLower p.name ≠ str Gen.tagReturns ∧ p.name ≠ str "Varargs" ∧ wfPartBody p = true := by
+  simp only [wfParam, Bool.and_eq_true, bne_iff_ne, ne_eq] at h
+  exact ⟨h.1.1.1, h.1.1.2, h.1.2, h.2⟩
+
+/-- a parameter line of the writer, read inside the identifier or parameter part -/
+theorem lineBody_param (h : Hdr) (st : BSt) (blk : BlockM) (ln col : Nat) (orig tail : Str) (p : SPart)
+    (hp : wfParam p = true) (ht : FieldTail tail (partFields p)) (hb : st.block = some blk)
+    (hin : st.inPart = some .ident ∨ st.inPart = some .params) (hnew : assocHas blk.params p.name = false) :
+    lineBody h st ln col orig ('@' :: p.name ++ ':' :: tail) =
+      .ok { st with partIndent := some 0, inPart := some .params,
+                    block := some (setParam blk (partRaw p.name p ln)), cur := some (false, partRaw p.name p ln) } := by
+  obtain ⟨hw, hnr, hnv, hbody⟩ := wfParam_spec hp
+  obtain ⟨g, hg, hgn, hgf⟩ := matchParameter_line p.name tail (partFields p) hw ht
+  unfold lineBody
+  rw [hb]
+  simp only [hg]
+  rw [show lineIndent ('@' :: p.name ++ ':' :: tail) = 0 from lineIndent_nonspace _ at_facts]
+  unfold paramStep
+  simp only [hgn, hgf]
+  obtain ⟨r, hr, happ, _, hfd⟩ := applyFirstFields_part p.name p ln (col + groupStart g "fields") hbody
+  rw [hr]
+  have hd1 : (if st.inPart = some InPart.ident ∨ st.inPart = some InPart.params then ([] : List BDiag)
+      else [mkDiag .warning .paramUnexpected ln (groupStart g "parameter_name" + col) orig]) = [] := by
+    simp [hin]
+  simp only [hd1, BSt.log_nil, hnr, if_false, hnv, decide_false, endsWith_dots_word p.name hw, Bool.false_and, Bool.or_false,
+    Bool.false_eq_true, hnew, List.append_nil, List.nil_append, happ, hfd, BSt.log_nil]
+
+
+/-! ### blank lines, description lines -/
+
+theorem matchParameter_nil : matchParameter [] = none := by simp [matchParameter, countWs, countWhile]
+
+theorem matchParameter_not_at {c : Char} (cs : Str) (hs : isSpace c = false) (hc : c ≠ '@') :
+    matchParameter (c :: cs) = none := by
+  unfold matchParameter
+  rw [countWs_cons_nonspace cs hs]
+  simp only [List.drop_zero]
+  split
+  · rename_i h; simp only [List.cons.injEq] at h; exact absurd h.1 hc
+  · rfl
+
+theorem matchTagFrom_nil : ∀ (ts : List String), (∀ t ∈ ts, t.toList ≠ []) → matchTagFrom [] 0 ts = none
+  | [], _ => rfl
+  | t :: ts, h => by
+    rw [matchTagFrom]
+    have : tagAltAt ([] : Str) t.toList = false := by
+      cases ht : t.toList with
+      | nil => exact absurd ht (h t (by simp))
+      | cons c cs => rfl
+    simp only [List.drop_nil, this, Bool.false_eq_true, if_false]
+    exact matchTagFrom_nil ts (fun x hx => h x (by simp [hx]))
+
+theorem allTags_nonempty : ∀ t ∈ Gen.allTags, t.toList ≠ [] := by decide +kernel
+
+theorem matchTag_nil : matchTag [] = none := by
+  unfold matchTag
+  exact matchTagFrom_nil _ allTags_nonempty
+
+/-- the empty comment line that ends the identifier / parameter part -/
+theorem lineBody_blank_first (h : Hdr) (st : BSt) (blk : BlockM) (ln col : Nat) (orig : Str) (hb : st.block = some blk)
+    (hin : st.inPart = some .ident ∨ st.inPart = some .params) :
+    lineBody h st ln col orig [] = .ok { st with inPart := some .desc, partIndent := some 0 } := by
+  unfold lineBody
+  rw [hb]
+  simp only [matchParameter_nil, lineIndent_nil]
+  have : (matchEmpty [] && (st.inPart = some .ident || st.inPart = some .params)) = true := by
+    rcases hin with h | h <;> simp [matchEmpty, h]
+  simp [this]
+
+/-- an empty comment line inside the description part -/
+theorem lineBody_blank_desc (h : Hdr) (st : BSt) (blk : BlockM) (ln col : Nat) (orig : Str) (hb : st.block = some blk)
+    (hin : st.inPart = some .desc) :
+    lineBody h st ln col orig [] =
+      .ok { st with block := some { blk with description := appendDesc blk.description [] } } := by
+  unfold lineBody
+  rw [hb]
+  simp only [matchParameter_nil, matchTag_nil, hin]
+  unfold middleStep
+  simp [hin, matchEmpty]
+
+theorem wfDescLine_spec {l : Str} (h : wfDescLine l = true) :
+    Trimmed l ∧ NoBreak l ∧ matchParameter l = none ∧ matchTag l = none := by
+  simp only [wfDescLine, Bool.and_eq_true, Option.isNone_iff_eq_none] at h
+  obtain ⟨ht, hb⟩ := trimmedText_spec h.1.1
+  exact ⟨ht, hb, h.1.2, h.2⟩
+
+theorem matchEmpty_trimmed {l : Str} (h : Trimmed l) : matchEmpty l = false := by
+  obtain ⟨c, cs, he, hc⟩ := h.head
+  rw [he]; simp [matchEmpty, hc]
+
+/-- a line of the block description -/
+theorem lineBody_desc (h : Hdr) (st : BSt) (blk : BlockM) (ln col : Nat) (orig l : Str) (hb : st.block = some blk)
+    (hin : st.inPart = some .desc) (hl : wfDescLine l = true) :
+    lineBody h st ln col orig l =
+      .ok { st with block := some { blk with description := appendDesc blk.description l } } := by
+  obtain ⟨ht, _, hp, htag⟩ := wfDescLine_spec hl
+  unfold lineBody
+  rw [hb]
+  simp only [hp, htag, matchEmpty_trimmed ht, Bool.false_and, Bool.false_eq_true, if_false]
+  unfold middleStep
+  simp [hin, matchEmpty_trimmed ht, rstrip_trimmed ht]
+
+
+/-! ### the `Returns:` line -/
+
+theorem icase_dR : icaseMatch 'd' 'R' = false := by decide
+theorem tagAlt_returns (rest : Str) : tagAltAt ('R' :: 'e' :: 't' :: 'u' :: 'r' :: 'n' :: 's' :: rest) "returns".toList = true := by
+  have h1 : icaseMatch 'r' 'R' = true := by decide
+  have h2 : icaseMatch 'e' 'e' = true := by decide
+  have h3 : icaseMatch 't' 't' = true := by decide
+  have h4 : icaseMatch 'u' 'u' = true := by decide
+  have h5 : icaseMatch 'r' 'r' = true := by decide
+  have h6 : icaseMatch 'n' 'n' = true := by decide
+  have h7 : icaseMatch 's' 's' = true := by decide
+  simp [tagAltAt, h1, h2, h3, h4, h5, h6, h7]
+theorem matchTagFrom_skip (line : Str) (a : Nat) (t : String) (ts : List String)
+    (h : tagAltAt (line.drop a) t.toList = false) : matchTagFrom line a (t :: ts) = matchTagFrom line a ts := by
+  rw [matchTagFrom]; simp [h]
+theorem matchTagFrom_hit (line : Str) (a : Nat) (t : String) (ts : List String) (e : Nat)
+    (h : tagAltAt (line.drop a) t.toList = true) (hc : colonAfterWs ((line.drop a).drop t.length) = some e) :
+    matchTagFrom line a (t :: ts) = some [("tag_name", a, a + t.length),
+      ("fields", (trimmedSpan (a + t.length + e) (line.drop (a + t.length + e))).1, (trimmedSpan (a + t.length + e) (line.drop (a + t.length + e))).2)] := by
+  rw [matchTagFrom]; simp only [h, if_true]; rw [hc]
+theorem allTags_head : Gen.allTags = "deprecated" :: "returns" :: Gen.allTags.drop 2 := by decide
+theorem len_returns : ("returns" : String).length = 7 := by decide
+theorem matchTag_returns (rest : Str) :
+    matchTag ('R' :: 'e' :: 't' :: 'u' :: 'r' :: 'n' :: 's' :: ':' :: rest) =
+      some [("tag_name", 0, 7), ("fields", (trimmedSpan 8 rest).1, (trimmedSpan 8 rest).2)] := by
+  unfold matchTag
+  have hws : countWs ('R' :: 'e' :: 't' :: 'u' :: 'r' :: 'n' :: 's' :: ':' :: rest) = 0 := by
+    simp [countWs, countWhile, show isSpace 'R' = false by decide]
+  rw [hws, allTags_head]
+  rw [matchTagFrom_skip _ _ _ _ (by simp [tagAltAt, icase_dR])]
+  rw [matchTagFrom_hit _ 0 "returns" _ 1 (by simpa using tagAlt_returns (':' :: rest))
+    (by simp [len_returns, colonAfterWs, countWs, countWhile, show isSpace ':' = false by decide])]
+  simp [len_returns]
+
+theorem returns_facts :
+    pyLower (str "Returns") = str Gen.tagReturns ∧ pyCapitalize (str Gen.tagReturns) = str "Returns" ∧
+    inTable Gen.deprecatedGiAnnTags (str Gen.tagReturns) = false ∧ str Gen.tagReturns ≠ str Gen.tagDescription ∧
+    inTable Gen.tagReturnsFamily (str Gen.tagReturns) = true := by
+  decide +kernel
+
+/-- the `Returns:` line of the writer, read in the description part -/
+theorem lineBody_returns (h : Hdr) (st : BSt) (blk : BlockM) (ln col : Nat) (orig tail : Str) (r : SPart)
+    (hr : wfPartBody r = true) (ht : FieldTail tail (partFields r)) (hb : st.block = some blk)
+    (hin : st.inPart = some .desc) (hpi : st.partIndent = some 0) (hrs : st.returnsSeen = false) :
+    lineBody h st ln col orig (str "Returns" ++ ':' :: tail) =
+      .ok { st with inPart := some .tags, returnsSeen := true,
+                    block := some (setTag blk (partRaw (str Gen.tagReturns) r ln)),
+                    cur := some (true, partRaw (str Gen.tagReturns) r ln) } := by
+  have hline : str "Returns" ++ ':' :: tail = 'R' :: 'e' :: 't' :: 'u' :: 'r' :: 'n' :: 's' :: ':' :: tail := rfl
+  unfold lineBody
+  rw [hb, hline, matchParameter_not_at _ (by decide) (by decide), matchTag_returns tail,
+    lineIndent_nonspace _ (show isSpace 'R' = false by decide)]
+  have hme : matchEmpty ('R' :: 'e' :: 't' :: 'u' :: 'r' :: 'n' :: 's' :: ':' :: tail) = false := by
+    simp [matchEmpty, show isSpace 'R' = false by decide]
+  simp only [hme, Bool.false_and, Bool.false_eq_true, if_false, hpi, Nat.le_refl, if_true]
+  unfold tagStep
+  obtain ⟨hlow, _, hdep, hnd, hfam⟩ := returns_facts
+  have hname : groupText ('R' :: 'e' :: 't' :: 'u' :: 'r' :: 'n' :: 's' :: ':' :: tail)
+      [("tag_name", 0, 7), ("fields", (trimmedSpan 8 tail).1, (trimmedSpan 8 tail).2)] "tag_name" = str "Returns" := by
+    simp [groupText, str]
+  have hfields : groupText ('R' :: 'e' :: 't' :: 'u' :: 'r' :: 'n' :: 's' :: ':' :: tail)
+      [("tag_name", 0, 7), ("fields", (trimmedSpan 8 tail).1, (trimmedSpan 8 tail).2)] "fields" = partFields r := by
+    rcases ht with ⟨rfl, hF⟩ | ⟨rfl, hF⟩
+    · rw [trimmedSpan_nil, hF]; simp [groupText]
+    · rw [trimmedSpan_space_trimmed 8 space_isSpace hF]; simp [groupText]
+  simp only [hname, hfields, hlow, hdep, Bool.false_eq_true, if_false, hnd, hfam, if_true]
+  obtain ⟨x, hx, happ, _, hfd⟩ := applyFirstFields_part (str Gen.tagReturns) r ln
+    (col + groupStart [("tag_name", 0, 7), ("fields", (trimmedSpan 8 tail).1, (trimmedSpan 8 tail).2)] "fields") hr
+  rw [hx]
+  simp [tagInPart, hin, hrs, happ, hfd]
+
+
+/-! ### the writer's lines for a block of the grammar -/
+
+theorem okChar_noBreak {c : Char} (h : okChar c = true) : c ≠ '\r' ∧ c ≠ '\n' := by
+  simp only [okChar, cleanChar, Bool.or_eq_true, Bool.and_eq_true, Bool.not_eq_true', bne_iff_ne, ne_eq, beq_iff_eq] at h
+  rcases h with h | h
+  · constructor <;> intro he <;> subst he <;> exact absurd h.1.1.1.1 (by decide)
+  · subst h; decide
+
+theorem serializeAnnotation_noBreak (x : Str × Opts) (h : wfAnnotation x = true) : NoBreak (serializeAnnotation x) := by
+  obtain ⟨htj, _⟩ := parseAnnotation_inner 0 x h
+  rw [serializeAnnotation_inner]
+  intro c hc
+  simp only [List.cons_append, List.mem_cons, List.mem_append, List.mem_nil_iff, or_false] at hc
+  rcases hc with rfl | hc | rfl
+  · decide
+  · exact okChar_noBreak (htj.ok c hc)
+  · decide
+
+theorem serializeAnnotations_noBreak : ∀ (a : Anns), (∀ x ∈ a, wfAnnotation x = true) → NoBreak (serializeAnnotations a)
+  | [], _ => by intro c hc; simp [serializeAnnotations, join] at hc
+  | [x], h => by rw [serializeAnnotations_singleton]; exact serializeAnnotation_noBreak x (h x (by simp))
+  | x :: y :: t, h => by
+    rw [serializeAnnotations_cons_cons]
+    intro c hc
+    simp only [List.mem_append, List.mem_cons] at hc
+    rcases hc with hc | rfl | hc
+    · exact serializeAnnotation_noBreak x (h x (by simp)) c hc
+    · decide
+    · exact serializeAnnotations_noBreak (y :: t) (fun z hz => h z (by simp [hz])) c hc
+
+theorem splitChar_noSep (sep : Char) (s acc : Str) (h : sep ∉ s) : splitChar sep s acc = [acc.reverse ++ s] := by
+  have := splitChar_token s [] acc h
+  simpa [splitChar] using this
+
+theorem noBreak_not_mem_lf {s : Str} (h : NoBreak s) : '\n' ∉ s := fun hm => (h _ hm).2 rfl
+
+theorem wfWord_noBreak {n : Str} (h : wfWord n = true) : NoBreak n := by
+  intro c hc
+  have := isWord_ne ((wfWord_spec h).2 c hc)
+  exact ⟨this.2.2.2.2.2.2.2.2.1, this.2.2.2.2.2.2.2.1⟩
+
+theorem noBreak_append {a b : Str} (ha : NoBreak a) (hb : NoBreak b) : NoBreak (a ++ b) := by
+  intro c hc
+  rcases List.mem_append.mp hc with h | h
+  · exact ha c h
+  · exact hb c h
+
+theorem noBreak_cons {c : Char} {s : Str} (hc : c ≠ '\r' ∧ c ≠ '\n') (hs : NoBreak s) : NoBreak (c :: s) := by
+  intro x hx
+  rcases List.mem_cons.mp hx with rfl | h
+  · exact hc
+  · exact hs x h
+
+theorem noBreak_nil : NoBreak [] := by intro c hc; cases hc
+
+/-- the text after the colon of a part line: a space and the fields, or nothing -/
+def partTail (p : SPart) : Str := if (partFields p).isEmpty then [] else ' ' :: partFields p
+
+theorem partFields_spec (p : SPart) (h : wfPartBody p = true) :
+    NoBreak (partFields p) ∧ FieldTail (partTail p) (partFields p) := by
+  have hiso := partFields_isEmpty p h
+  simp only [wfPartBody, Bool.and_eq_true] at h
+  obtain ⟨ha, hd⟩ := h
+  obtain ⟨hwa, _⟩ := wfAnns_spec ha
+  have hnbA := serializeAnnotations_noBreak p.anns hwa
+  unfold partTail
+  cases hd' : p.desc with
+  | none =>
+    cases hae : p.anns.isEmpty with
+    | true =>
+      have : partFields p = [] := by simp [partFields, hd', hae]
+      rw [this]; exact ⟨noBreak_nil, Or.inl ⟨rfl, rfl⟩⟩
+    | false =>
+      have hne : p.anns ≠ [] := by intro h; rw [h] at hae; cases hae
+      obtain ⟨m, hm⟩ := serializeAnnotations_shape p.anns hne
+      have hpf : partFields p = serializeAnnotations p.anns ++ [':'] := by simp [partFields, hd', hae]
+      rw [hpf]
+      refine ⟨noBreak_append hnbA (noBreak_cons (by decide) noBreak_nil), ?_⟩
+      have hie : (serializeAnnotations p.anns ++ [':']).isEmpty = false := by rw [hm]; rfl
+      simp only [hie, Bool.false_eq_true, if_false]
+      refine Or.inr ⟨rfl, ⟨'(', m ++ [')', ':'], by rw [hm]; simp, lpar_not_space⟩, ⟨serializeAnnotations p.anns, ':', rfl, colon_not_space⟩⟩
+  | some d =>
+    rw [hd'] at hd
+    obtain ⟨htr, hnb, _⟩ := wfDescText_spec hd
+    cases hae : p.anns.isEmpty with
+    | true =>
+      have hpf : partFields p = d := by simp [partFields, hd', hae]
+      rw [hpf]
+      have : d.isEmpty = false := by cases d with
+        | nil => exact absurd rfl htr.ne_nil
+        | cons _ _ => rfl
+      simp only [this, Bool.false_eq_true, if_false]
+      exact ⟨hnb, Or.inr ⟨rfl, htr⟩⟩
+    | false =>
+      have hne : p.anns ≠ [] := by intro h; rw [h] at hae; cases hae
+      obtain ⟨m, hm⟩ := serializeAnnotations_shape p.anns hne
+      have hpf : partFields p = serializeAnnotations p.anns ++ ':' :: ' ' :: d := by simp [partFields, hd', hae]
+      rw [hpf]
+      refine ⟨noBreak_append hnbA (noBreak_cons (by decide) (noBreak_cons (by decide) hnb)), ?_⟩
+      have hie : (serializeAnnotations p.anns ++ ':' :: ' ' :: d).isEmpty = false := by rw [hm]; rfl
+      simp only [hie, Bool.false_eq_true, if_false]
+      obtain ⟨ds, x, hx, hxs⟩ := htr.last
+      refine Or.inr ⟨rfl, ⟨'(', m ++ ')' :: ':' :: ' ' :: d, by rw [hm]; simp, lpar_not_space⟩,
+        ⟨serializeAnnotations p.anns ++ ':' :: ' ' :: ds, x, by rw [hx]; simp, hxs⟩⟩
+
+
+theorem descSuffix_trimmed {d : Str} (h : Trimmed d) : descSuffix d = ':' :: ' ' :: d := by
+  obtain ⟨c, cs, he, hc⟩ := h.head
+  subst he
+  unfold descSuffix
+  split
+  · rename_i h2; simp only [List.cons.injEq] at h2; rw [h2.1] at hc; exact absurd hc (by decide)
+  · rfl
+
+/-- head ++ (annotations) ++ (description or colon), as both serializers build it -/
+theorem partLine_image (head name : Str) (p : SPart) (ln : Nat) (h : wfPartBody p = true) :
+    (let P := partImage name p ln
+     let s := if P.annotations.isEmpty then head else head ++ ':' :: ' ' :: serializeAnnotations P.annotations
+     if truthy P.description then s ++ descSuffix (P.description.getD []) else s ++ [':']) = head ++ ':' :: partTail p := by
+  have hh := h
+  simp only [wfPartBody, Bool.and_eq_true] at hh
+  obtain ⟨_, hd⟩ := hh
+  unfold partTail partFields partImage
+  cases hd' : p.desc with
+  | none =>
+    cases hae : p.anns.isEmpty with
+    | true => simp [truthy, hae]
+    | false => simp [truthy, hae]
+  | some d =>
+    rw [hd'] at hd
+    obtain ⟨htr, _, _⟩ := wfDescText_spec hd
+    have hne : d.isEmpty = false := by cases d with
+      | nil => exact absurd rfl htr.ne_nil
+      | cons _ _ => rfl
+    cases hae : p.anns.isEmpty with
+    | true => simp [truthy, hae, hne, descSuffix_trimmed htr]
+    | false => simp [truthy, hae, hne, descSuffix_trimmed htr]
+
+theorem partTail_noBreak (p : SPart) (h : wfPartBody p = true) : NoBreak (partTail p) := by
+  obtain ⟨hnb, _⟩ := partFields_spec p h
+  unfold partTail
+  split
+  · exact noBreak_nil
+  · exact noBreak_cons (by decide) hnb
+
+theorem serializeParameter_image (p : SPart) (ln : Nat) (hp : wfParam p = true) :
+    serializeParameter (partImage p.name p ln) = ['@' :: p.name ++ ':' :: partTail p] := by
+  obtain ⟨hw, _, _, hbody⟩ := wfParam_spec hp
+  unfold serializeParameter
+  have := partLine_image ('@' :: p.name) p.name p ln hbody
+  simp only [] at this
+  have hname : (partImage p.name p ln).name = p.name := rfl
+  simp only [hname]
+  rw [this]
+  have hnb : NoBreak ('@' :: p.name ++ ':' :: partTail p) :=
+    noBreak_cons (by decide) (noBreak_append (wfWord_noBreak hw) (noBreak_cons (by decide) (partTail_noBreak p hbody)))
+  rw [splitChar_noSep '\n' _ [] (noBreak_not_mem_lf hnb)]
+  simp
+
+theorem serializeTag_image (r : SPart) (ln : Nat) (hr : wfPartBody r = true) :
+    serializeTag (partImage (str Gen.tagReturns) r ln) = [str "Returns" ++ ':' :: partTail r] := by
+  unfold serializeTag
+  have := partLine_image (str "Returns") (str Gen.tagReturns) r ln hr
+  simp only [] at this
+  have hname : (partImage (str Gen.tagReturns) r ln).name = str Gen.tagReturns := rfl
+  have hval : (partImage (str Gen.tagReturns) r ln).value = none := rfl
+  simp only [hname, hval, returns_facts.2.1]
+  have hnb : NoBreak (str "Returns" ++ ':' :: partTail r) :=
+    noBreak_append (wfWord_noBreak (by decide +kernel)) (noBreak_cons (by decide) (partTail_noBreak r hr))
+  have hsp := splitChar_noSep '\n' _ [] (noBreak_not_mem_lf hnb)
+  simp only [List.reverse_nil, List.nil_append] at hsp
+  rw [← hsp, ← this]
+  cases htd : truthy (partImage (str Gen.tagReturns) r ln).description with
+  | true => simp [truthy]
+  | false => simp [truthy]
+
+
+/-- `'\n'.join(lines).split('\n') == lines` -/
+theorem splitChar_join_lf : ∀ (ls : List Str), ls ≠ [] → (∀ l ∈ ls, NoBreak l) →
+    splitChar '\n' (join ['\n'] ls) [] = ls
+  | [], h, _ => absurd rfl h
+  | [t], _, hw => by
+    rw [join_singleton, splitChar_noSep '\n' t [] (noBreak_not_mem_lf (hw t (by simp)))]; simp
+  | t :: u :: us, _, hw => by
+    rw [join_cons_cons]
+    have h1 := splitChar_token (sep := '\n') t (['\n'] ++ join ['\n'] (u :: us)) [] (noBreak_not_mem_lf (hw t (by simp)))
+    rw [List.append_assoc, h1]
+    simp only [List.append_nil, List.singleton_append, splitChar, if_true, List.reverse_reverse]
+    rw [splitChar_join_lf (u :: us) (by simp) (fun x hx => hw x (by simp [hx]))]
+
+def paramLine (p : SPart) : Str := '@' :: p.name ++ ':' :: partTail p
+def returnsLine (r : SPart) : Str := str "Returns" ++ ':' :: partTail r
+
+/-- the body lines the writer produces for the image of a block model -/
+def bodyOf (b : SBlock) : List Str :=
+  identLine b.name b.anns :: b.params.map paramLine
+    ++ (if b.desc.isEmpty then [] else [] :: b.desc)
+    ++ (match b.returns with
+        | none => []
+        | some r => [[], returnsLine r])
+
+theorem paramImages_lines : ∀ (ps : List SPart) (ln : Nat), (∀ p ∈ ps, wfParam p = true) →
+    ((paramImages ps ln).map (fun e => serializeParameter e.2)).flatten = ps.map paramLine
+  | [], _, _ => rfl
+  | p :: ps, ln, h => by
+    simp only [paramImages, List.map_cons, List.flatten_cons, serializeParameter_image p ln (h p (by simp))]
+    rw [paramImages_lines ps (ln + 1) (fun q hq => h q (by simp [hq]))]
+    rfl
+
+structure WfSBlock (b : SBlock) : Prop where
+  name : wfWord b.name = true
+  notSA : NotSectionAction b.name
+  anns : wfAnns b.anns = true
+  params : ∀ p ∈ b.params, wfParam p = true
+  nodup : nodupKeys (b.params.map (fun p => (p.name, ()))) = true
+  desc : ∀ l ∈ b.desc, wfDescLine l = true
+  returns : ∀ r, b.returns = some r → wfPartBody r = true
+
+theorem wfSBlock_spec {b : SBlock} (h : wfSBlock b = true) : WfSBlock b := by
+  simp only [wfSBlock, Bool.and_eq_true, Bool.not_eq_true', List.all_eq_true] at h
+  obtain ⟨⟨⟨⟨⟨⟨⟨h1, h2⟩, h3⟩, h4⟩, h5⟩, h6⟩, h7⟩, h8⟩ := h
+  refine ⟨h1, ⟨h2, h3⟩, h4, h5, h6, h7, ?_⟩
+  intro r hr
+  rw [hr] at h8
+  exact h8
+
+theorem bodyLines_image (b : SBlock) (n : Nat) (inds : List Str) (h : WfSBlock b) :
+    bodyLines (blockImage b n inds) = bodyOf b := by
+  unfold bodyLines bodyOf blockImage
+  simp only [h.notSA.1, h.notSA.2, Bool.or_self, Bool.false_eq_true, if_false]
+  have hident : (if b.anns.isEmpty = true then b.name ++ [':'] else b.name ++ ':' :: ' ' :: serializeAnnotations b.anns)
+      = identLine b.name b.anns := rfl
+  rw [hident, paramImages_lines b.params (n + 2) h.params]
+  congr 1
+  congr 1
+  · -- the description
+    cases hd : b.desc with
+    | nil => simp [truthy]
+    | cons l ls =>
+      have hnb : ∀ x ∈ l :: ls, NoBreak x := fun x hx => (wfDescLine_spec (h.desc x (by rw [hd]; exact hx))).2.1
+      have hne : (join ['\n'] (l :: ls)).isEmpty = false := by
+        have hl := (wfDescLine_spec (h.desc l (by rw [hd]; simp))).1.ne_nil
+        cases l with
+        | nil => exact absurd rfl hl
+        | cons c cs => cases ls <;> rfl
+      simp [truthy, hne, splitChar_join_lf (l :: ls) (by simp) hnb]
+  · -- the tags
+    cases hr : b.returns with
+    | none => simp
+    | some r => simp [serializeTag_image r _ (h.returns r hr), returnsLine]
+
+
 end GIVerif.AnnParse
